@@ -57,24 +57,26 @@ def run_chunk(args):
 
 
 def classify(w, clause):
-    """coarse cause class of a lost message (used for the known-finding key only)"""
+    """coarse cause class of a lost / unconfirmed message (used for the known-finding key only)"""
     c = w["call"]
     n, h = len(c["msg"]), hops(c["src"], c["to"])
-    if clause != "C05.Delivered" or n <= 24 or h < 2:
+    if clause not in ("C05.Delivered", "C05.ReturnTrue") or n <= 24 or h < 2:
         return "%s:len%s:hops%d" % (clause, ">24" if n > 24 else "<=24", h)
-    # a fragment of this message was dropped (never ACKed at radio level) while NETWORK_ACK frames answering its earlier
-    # fragments were in flight: the TX/TX stand-off between a forwarding node and the node sending the NETWORK_ACK
+    # the fragment / NETWORK_ACK stand-off: a frame of this message (a fragment, or a NETWORK_ACK answering one of its
+    # fragments) was never ACKed at radio level while frames of the other kind were on air
     loads = {}
     for p in w["pkts"]:
-        if len(p["data"]) >= 8 and p["data"][6] in (148, 149, 150):
+        if len(p["data"]) >= 8 and p["data"][6] in (148, 149, 150, NET_ACK):
             loads.setdefault((p["src"], p["load"]), []).append(p)
-    acks = [q for q in w["pkts"] if len(q["data"]) >= 8 and q["data"][6] == NET_ACK]
     for (src, _), ps in loads.items():
         if not any(p["acked"] for p in ps):
+            mine = ps[0]["data"][6]
             t0, t1 = ps[0]["t"] - 60000, ps[-1]["t"] + 1000
-            if any(q["src"] != src and t0 <= q["t"] <= t1 for q in acks):
-                return "C05.Delivered:fragmented:routed:fragment-dropped-during-NETWORK_ACK-standoff"
-    return "C05.Delivered:fragmented:routed:other"
+            other = [q for q in w["pkts"] if len(q["data"]) >= 8 and q["src"] != src and t0 <= q["t"] <= t1 and
+                     ((q["data"][6] == NET_ACK) if mine != NET_ACK else (q["data"][6] in (148, 149, 150)))]
+            if other:
+                return "%s:fragmented:routed:frame-dropped-during-fragment/NETWORK_ACK-standoff" % clause
+    return "%s:fragmented:routed:other" % clause
 
 
 def build(chk):
